@@ -531,7 +531,7 @@ func runC10(c *ctx) {
 	}
 	budget, depth := c.pick(5, 6), c.pick(2, 3)
 	countVals := []int{-1, 0, 1, 2, 3} // -1 = unfilled
-	c.Rule = fmt.Sprintf("reference expander oracle. Exhaustive part: every list template of at most %d nodes and %d nesting levels over the item alphabet {scalar with variable, constant scalar, ASCII variable with bounds, list variable, nested list}, an ellipsis at any legal position or absent, x every count map over {unfilled,0,1,2,3}; plus for every template with >= 2 ellipses every two-step split. Random part: generated trees (depth <= 6, counts <= 12, results <= 50000 nodes), arbitrary distinct ellipsis numbers. Checked: String(), Size(), Variables() (ellipsis names by position; remaining names must be unique and '...'/'...[0]' or '...[0]'..'...[k-1]' in order), and that generated names can be filled individually and land in the right place. non-trivial = some ellipsis filled with n >= 1; distinct by (template, counts, split) Also (rounds 6-8): the second expansion reuses the map object of the first; counts and values for generated names in ONE call on the item and through a message; expansions that would generate a name written elsewhere are refused or leave every name once.", budget, depth)
+	c.Rule = fmt.Sprintf("reference expander oracle. Exhaustive part: every list template of at most %d nodes and %d nesting levels over the item alphabet {scalar with variable, constant scalar, ASCII variable with bounds, list variable, nested list}, an ellipsis at any legal position or absent, x every count map over {unfilled,0,1,2,3}; plus for every template with >= 2 ellipses every two-step split. Random part: generated trees (depth <= 6, counts <= 12, results <= 50000 nodes), arbitrary distinct ellipsis numbers. Checked: String(), Size(), Variables() (ellipsis names by position; remaining names must be unique and '...'/'...[0]' or '...[0]'..'...[k-1]' in order), and that generated names can be filled individually and land in the right place. non-trivial = some ellipsis filled with n >= 1; distinct by (template, counts, split) Also (rounds 6-8): the second expansion reuses the map object of the first; counts and values for generated names in ONE call on the item and through a message; expansions that would generate a name written elsewhere are refused or leave every name once. Also (round 10): the same template object is expanded a second and third time with other counts and compared with the expansion of a fresh model.", budget, depth)
 	c.Assume = []string{"reference expander internal/ref/fill.go (checked against the documented example on every run)", "counts >= 0", "templates use bracket-free base names so generated names cannot collide with existing ones"}
 
 	var templates []*ref.Item
